@@ -432,6 +432,15 @@ impl Gen {
     }
     /// custom text: `lf` allows LF inside
     fn custom(&mut self, lf: bool) -> String {
+        // one text in sixteen is long: lengths around the sizes at which a writer may buffer, chunk or take
+        // another path (4 KiB pages, the 8 KiB BufWriter capacity, 16 KiB, 64 KiB)
+        if self.rng.chance(1, 24) {
+            let n = *self.rng.pick(&[4095usize, 4096, 4097, 8191, 8192, 8193, 16384, 20000]);
+            let mut s = loop { let s = self.string(true); if lf || !s.contains('\n') { break s; } };
+            let pad = *self.rng.pick(&["x", "y", "é", "\\"]);
+            while s.len() < n { s.push_str(pad); }
+            return s;
+        }
         loop { let s = self.string(true); if lf || !s.contains('\n') { return s; } }
     }
     fn num32(&mut self) -> u32 { match self.rng.below(5) { 0 => 0, 1 => u32::MAX, 2 => 65000 + self.rng.below(100) as u32, 3 => self.rng.below(10) as u32, _ => self.rng.next() as u32 } }
